@@ -330,3 +330,19 @@ def scaling_chains(total):
     yield 'delete-65535-declared', DELETE, gp(0, bytes([3, 4, 0xFF, 0xFF]) + b'spi1')
     n = max(1, room // 4)
     yield 'delete-n-real-spis', DELETE, gp(0, bytes([3, 4]) + struct.pack('>H', min(n, 0xFFFF)) + b'spi1' * n)
+    # the same shapes with pairwise DISTINCT units (anything that compares, de-duplicates or looks up earlier units
+    # per unit shows its cost only then)
+    n = max(1, (room - 8) // 8)
+    trs = b''.join(struct.pack('>BBHBBH', 3, 0, 8, 1 + (i >> 16) % 5, 0, i & 0xFFFF) for i in range(n))
+    yield 'proposal-many-distinct-transforms', SA, gp(0, struct.pack('>BBHBBBB', 0, 0, 8 + 8 * n, 1, 1, 0, n & 0xFF) + trs)
+    n = max(1, room // 16)
+    props = b''.join(struct.pack('>BBHBBBB', 2, 0, 16, (i & 0xFF) or 1, 1, 0, 1) + struct.pack('>BBHBBH', 0, 0, 8, 1, 0, i & 0xFFFF)
+                     for i in range(n))
+    yield 'sa-many-distinct-proposals', SA, gp(0, props)
+    n = max(1, (room - 4) // 16)
+    sels = b''.join(struct.pack('>BBHHH4s4s', 7, 0, 16, i & 0xFFFF, 65535, struct.pack('>I', 0x0a000000 + i),
+                                struct.pack('>I', 0x0b000000 + i)) for i in range(n))
+    yield 'ts-many-distinct-selectors', TSI, gp(0, bytes([n & 0xFF, 0, 0, 0]) + sels)
+    n = max(1, room // 8)
+    yield 'notify-distinct-chain', NOTIFY, b''.join(gp(NOTIFY if i < n - 1 else 0, struct.pack('>BBH', 0, 0, 0x4000 + (i & 0x3FFF)))
+                                                    for i in range(n))
